@@ -15,6 +15,7 @@ Fixpoint nat_lists_eqb (a b : list (list nat)) : bool :=
 
 Definition Zcp_dense := @cp_dense Z 0%Z 1%Z Z.add Z.mul.
 Definition Zinit_cp := @init_cp Z 1%Z Z.mul Z.eqb.
+Definition Zinit_hals := @init_hals Z 1%Z Z.mul Z.eqb.
 Definition Zabsorb_last := @absorb_last Z Z.mul.
 Definition Zabsorb_at := @absorb_at Z Z.mul.
 Definition Zones := @ones Z 1%Z.
@@ -103,6 +104,8 @@ Inductive case :=
 (* parafac2(init=..., n_iter_max=0): rank asked for, the init, the recorded answer (Q, R) of qr(B) (unused for a
    Parafac2Tensor init), the common slice height J, the returned (weights, factors, projections) or Err,
    parafac2_to_tensor of the result and the dense tensor of the init (cp_to_tensor / parafac2_to_tensor) *)
+(* non_negative_parafac_hals(init=(w, fs), fixed_modes=fixed, n_iter_max=0): returned weights and factors = its start state *)
+| CHalsInit (id : nat) (R n : nat) (fixed : list nat) (w : option (list Z)) (fs : list zmat) (out_w : list Z) (out_fs : list zmat)
 | CP2Init (id : nat) (rank : nat) (init : p2init Z) (Q Rm : zmat) (J : nat)
           (observed : res (list Z * list zmat * list zmat)) (dense_out dense_init : tensor Z).
 
@@ -127,6 +130,8 @@ Definition agree (c : case) : bool :=
   | CP2Dense _ R w A B C P J dense => zt_eqb (Zp2_dense R w A B C P J) dense
   | CNtdInit _ core fs out_core out_fs =>
       let '(c, f) := tucker_init true Z.abs core fs in zt_eqb c out_core && zmats_eqb f out_fs
+  | CHalsInit _ R n fixed w fs out_w out_fs =>
+      let '(w', fs') := Zinit_hals R n fixed w fs in z_list_eqb w' out_w && zmats_eqb fs' out_fs
   | CP2Init _ rank init Q Rm J observed dense_out dense_init =>
       res_eqb p2_state_eqb (p2_state rank init Q Rm) observed &&
       match p2_state rank init Q Rm with
@@ -139,6 +144,6 @@ Definition ident (c : case) : nat :=
   match c with
   | CInit i _ _ _ _ _ | CDense i _ _ _ _ | CTrace i _ _ _ _ _ _ _ _ _ _ | CTuckerTape i _ _ _ _ _ _ _ _ _ | CTuckerLists i _ _ _
   | CTuckerZero i _ _ _ _ | CTuckerDense i _ _ _ | CP2Dense i _ _ _ _ _ _ _ _ | CNtdInit i _ _ _ _
-  | CP2Init i _ _ _ _ _ _ _ _ => i
+  | CP2Init i _ _ _ _ _ _ _ _ | CHalsInit i _ _ _ _ _ _ _ => i
   end.
 Definition failing := failing_ids agree ident.
